@@ -16,6 +16,8 @@ pub enum Op {
     /// assertion with seeded credential n (1 or 2)
     Assert(u8),
     Register,
+    /// registration for the user handle of seeded credential n (the "same account")
+    RegisterUser(u8),
 }
 #[derive(Clone, Debug, Serialize, Deserialize, PartialEq, Eq, Hash)]
 pub struct Scenario {
@@ -58,7 +60,7 @@ where
                 Ok(r) => Outcome::Asserted { cred: r.credential.map(|d| d.id.to_vec()).unwrap_or_default(), counter: r.auth_data.counter.unwrap_or(0) },
                 Err(e) => Outcome::Failed(e.into()),
             },
-            Op::Register => match auth.make_credential(mc_request(RP, &[9, idx as u8], None, true, true, true, false, None)).await {
+            Op::Register | Op::RegisterUser(_) => match auth.make_credential(mc_request(RP, &match op { Op::RegisterUser(n) => vec![n], _ => vec![9, idx as u8] }, None, true, true, true, false, None)).await {
                 Ok(r) => Outcome::Registered { cred: r.auth_data.attested_credential_data.as_ref().map(|a| a.credential_id().to_vec()).unwrap_or_default() },
                 Err(e) => Outcome::Failed(e.into()),
             },
@@ -157,6 +159,8 @@ pub fn scenarios(tier: Tier) -> Vec<(Scenario, Option<usize>)> {
             v.push((mk("assert||register", vec![Op::Assert(1), Op::Register], "memory"), None));
             v.push((mk("register||register", vec![Op::Register, Op::Register], "memory"), None));
             v.push((mk("assert||assert(same)", vec![Op::Assert(1), Op::Assert(1)], "option"), None));
+            v.push((mk("register(user1)||register(user1)", vec![Op::RegisterUser(1), Op::RegisterUser(1)], "memory"), None));
+            v.push((mk("assert(1)||register(user1)", vec![Op::Assert(1), Op::RegisterUser(1)], "memory"), None));
             let b3 = Some(tier.pick(2, 3));
             v.push((mk("assert||assert||assert(same)", vec![Op::Assert(1), Op::Assert(1), Op::Assert(1)], "memory"), b3));
             v.push((mk("assert||assert||register", vec![Op::Assert(1), Op::Assert(1), Op::Register], "memory"), b3));
